@@ -110,6 +110,63 @@ func climit(limit, n int, timeout time.Duration, heldRelease bool) h.Scenario {
 	}}
 }
 
+// climitGivesUp: the limiter (limit 1, no time-out of its own) is full - its one request stays inside until the
+// queued one has returned - and the queued request's caller gives up (its context is cancelled). The queued
+// request returns with an error, is never executed, and no permit is lost.
+func climitGivesUp() h.Scenario {
+	name := "climit/limit=1/queued-caller-gives-up"
+	return h.Scenario{Name: name, Quick: 3, Thorough: 5, Run: func(ch vs.Chooser, trace bool) (*vs.Sched, h.Outcome) {
+		var queuedErr error
+		queuedRan, queuedReturned := false, false
+		final := -1
+		s := vs.Run(ch, vs.Config{Trace: trace}, func() {
+			l := limiter.NewConcurrentLimiter(1)
+			inside := make(chan struct{})
+			gone := make(chan struct{})
+			var wg vs.WaitGroup
+			wg.Add(3)
+			vs.GoFG("holder", func() {
+				defer wg.Done()
+				l.Handler(context.Background(), []byte("r"), func(ctx context.Context, request []byte) ([]byte, error) {
+					vs.Send(inside, struct{}{})
+					vs.Recv(gone) // executing until the queued request has returned
+					return []byte("ok"), nil
+				})
+			})
+			ctx, cancel := vs.WithCancel(context.Background())
+			vs.GoFG("queued", func() {
+				defer wg.Done()
+				vs.Recv(inside) // the limiter is full now
+				_, queuedErr = l.Handler(ctx, []byte("r"), func(ctx context.Context, request []byte) ([]byte, error) {
+					queuedRan = true
+					return []byte("ok"), nil
+				})
+				queuedReturned = true
+				vs.Send(gone, struct{}{})
+			})
+			vs.GoFG("caller-gives-up", func() {
+				defer wg.Done()
+				cancel()
+			})
+			wg.Wait()
+			final = l.ConcurrentRequests()
+		})
+		var o h.Outcome
+		o.Key = fmt.Sprintf("returned=%v ran=%v err=%v final=%d", queuedReturned, queuedRan, queuedErr != nil, final)
+		if len(s.Hangs) == 0 && !s.Pruned && s.Aborted == "" {
+			switch {
+			case queuedRan:
+				o.Viol = append(o.Viol, h.V{Sig: "climit|over-limit", What: name + ": the queued request was executed while the limiter's one permit was held"})
+			case queuedErr == nil:
+				o.Viol = append(o.Viol, h.V{Sig: "climit|gave-up-without-error", What: name + ": the queued request returned without an error and without having run"})
+			case final != 0:
+				o.Viol = append(o.Viol, h.V{Sig: "climit|permit-lost", What: fmt.Sprintf("%s: ConcurrentRequests()=%d after both requests ended", name, final)})
+			}
+		}
+		return s, o
+	}}
+}
+
 // ---------- rate limiter: reference model ----------
 
 const unit = int64(time.Second) // 1 permit per second: interval = 1e9 ns, all instants are multiples of 0.5 s (exact in float64)
@@ -356,7 +413,7 @@ func rateConcurrent(n int, burst float64, idle time.Duration) h.Scenario {
 
 func main() {
 	scen := []h.Scenario{
-		climit(1, 3, 0, false), climit(2, 3, 0, false), climit(1, 2, 0, false),
+		climit(1, 3, 0, false), climit(2, 3, 0, false), climit(1, 2, 0, false), climitGivesUp(),
 		climit(1, 3, time.Second, false), climit(2, 3, time.Second, false), climit(1, 2, time.Second, false),
 		rateConcurrent(2, 1, 0), rateConcurrent(3, 1, 0), rateConcurrent(3, 2, 5*time.Second), rateConcurrent(2, 0, 0),
 	}
